@@ -33,8 +33,15 @@ class FakeSock:
     def setblocking(self, flag):
         self.a.setblocking(flag)
 
+    # what the non-blocking connect reports at once is an input like any other: in progress (the usual case), done, or an
+    # immediate failure (no route: every peer while the machine is offline; an address the kernel refuses outright). The
+    # attempt counts as an attempt whatever is reported
+    CONNECT_RESULTS = [0, 115, 101, 115, 100, 111, 115, 101]
+    _n = 0
+
     def connect_ex(self, addr):
-        return 0
+        FakeSock._n += 1
+        return FakeSock.CONNECT_RESULTS[(FakeSock._n + hash(addr[0]) % 3) % len(FakeSock.CONNECT_RESULTS)]
 
     def fileno(self):
         return self.a.fileno()
